@@ -75,6 +75,9 @@ def cfgs(tier):
         yield 'Nand2 w%d' % w, gate2(Nand2, w, w, w, lambda a, b: ~(a & b))
         yield 'Nor2 w%d' % w, gate2(Nor2, w, w, w, lambda a, b: ~(a | b))
 
+    # a ^ b with operands and result of different widths: operands zero-extended, result zero-extended / truncated
+    for aw, bw, rw in ((4, 4, 8), (2, 4, 6), (4, 2, 3), (1, 1, 2), (4, 4, 2), (2, 4, 4), (3, 1, 3)):
+        yield 'Xor2 a%d b%d r%d' % (aw, bw, rw), gate2(Xor2, aw, bw, rw, lambda a, b: a ^ b)
     def un(cls, aw, rw, fn, *extra):
         def build(s):
             a, r = W(s, 'a', aw), W(s, 'r', rw)
@@ -456,7 +459,7 @@ def main(argv=None):
                      'PriorityEncoder(inc_priority=True): priority increases with the index (as the repository test expects)',
                      'And2/Or2/Buf/Concatenate with mixed widths: operands zero-extended, result truncated'],
         bounds={'widths': '1..8 (quick) / 1..12,16,32 (thorough)', 'arity': 'n-ary gates 1..6 / 1..8; mux select width 1..3 / 1..4',
-                'outside': 'larger widths/arities; Equal/Xor2/Not with mixed widths (not documented)'},
+                'outside': 'larger widths/arities; Equal/Not/Nand2/Nor2 with mixed widths (upper result bits not documented; C01 compares them with the emitted Verilog)'},
         trusted_base=['z3', 'symx operator semantics (validated per run against concrete simulation)', 'reference functions in checks/c08.py'],
         replay_fn=replay)
 
